@@ -515,7 +515,7 @@ def _ak2_name(vc):
                          'kopf._cogs.aiokits.aiotoggles.ToggleSet.__iter__', 'kopf._cogs.aiokits.aiotoggles.ToggleSet.__contains__',
                          'kopf._cogs.aiokits.aiotoggles.ToggleSet.is_on', 'kopf._cogs.aiokits.aiotoggles.ToggleSet.is_off',
                          'kopf._cogs.aiokits.aiotoggles.ToggleSet.drop_toggles', 'kopf._cogs.aiokits.aiotoggles.Toggle.name'],
-         props=['C13', 'C17', 'C19'],
+         props=['C13', 'C17', 'C19', 'C09'],
          clauses=['init.empty_with_own_condition', 'views.len_iter_contains_reflect_members', 'views.are_pure', 'is_on.any_all_modes',
                   'is_off.negates_is_on', 'drop_toggles.drops_exactly_the_given', 'drop_toggles.wakes_waiters_with_the_reduced_set',
                   'drop_toggles.under_lock', 'drop_toggles.members_untouched', 'toggle.name_as_given'],
@@ -767,7 +767,7 @@ def _ak4_reasons(vc):
 @harness('AK4', targets=['kopf._cogs.aiokits.aioenums.FlagWaiter.__init__', 'kopf._cogs.aiokits.aioenums.FlagWaiter.wait',
                          'kopf._cogs.aiokits.aioenums.FlagWaiter.__await__', 'kopf._cogs.aiokits.aioenums.AsyncFlagPromise.__init__',
                          'kopf._core.intents.stoppers.DaemonStoppingReason'],
-         props=['C09'],
+         props=['C09', 'C10', 'C13'],
          clauses=['unsupported_uses_refused_loudly', 'waiter_init_binds_setter', 'promise_remembers_waiter_and_timeout',
                   'promise_is_a_live_view_of_the_same_flag', 'reasons_are_independent_flags', 'stopper_aliases_denote_the_flag_classes'],
          canaries=['canary.waits_fine', 'canary.never_set'],
